@@ -43,6 +43,8 @@ pub struct NodeObs {
     pub commit_set: HashSet<Digest>,
     /// key -> (seq of first write, hash of value, number of writes)
     pub store: HashMap<Vec<u8>, (u64, Digest, u32)>,
+    /// key -> virtual time of the first write
+    pub store_t: HashMap<Vec<u8>, u64>,
 }
 
 pub struct Observer {
@@ -397,6 +399,7 @@ impl Observer {
         self.last_seq = seq;
         self.last_t = t_us;
         let vh = ident::bytes_digest(value);
+        self.nodes[node].store_t.entry(key.to_vec()).or_insert(t_us);
         let e = self.nodes[node].store.entry(key.to_vec()).or_insert((seq, vh.clone(), 0));
         e.2 += 1;
         let changed = e.1 != vh;
